@@ -4,21 +4,25 @@ from .. import gen, oracles, solved, sysdesc, wire
 
 CLAIM = True
 MODULE = "SysLoss.Props.C03"
-MODULES = ["SysLoss.Props.C03", "SysLoss.Props.C03Live"]
+MODULES = ["SysLoss.Props.C03", "SysLoss.Props.C03Live", "SysLoss.Props.C03Contract"]
 THEOREMS = ["SysLoss.C03." + t for t in (
     "loop_spec", "solve_terminates", "solvePhase_sound", "solvePhase_error", "passive_ok_physical",
     "source_ok_physical_partial", "source_ok_physical_full_fails", "exact_fixed_point_returns",
     # Props/C03Live: the first liveness class (voltage laws that do not read the load current, single-supply trees)
     "loop_returns_if_eventually_fixed", "loop_returns_of_iterate_fixed", "volt_io_indep", "volt_step_settle", "volt_frozen",
     "voltages_settle_partial", "curr_step_settle", "currents_settle_partial", "eventually_fixed_partial",
-    "finite_settling_partial", "law_margin", "noraise_of_margin", "finite_settling_margin_partial")]
+    "finite_settling_partial", "law_margin", "noraise_of_margin", "finite_settling_margin_partial",
+    # Props/C03Contract: second liveness class - a Source with series resistance feeding loads directly (contraction)
+    "loop_returns_if_eventually_converged", "star_step", "star_recurrence_general", "star_recurrence", "linear_cert",
+    "linear_factor_lt_one", "star_converges_explicit_partial", "star_converges_partial", "star_converges_cert_partial",
+    "star_converges_cert_arch_partial")]
 LEVEL_TEXT = ("Theorems (Lean 4) about the model of the sweep loop: it performs at most maxiter+1 sweeps (structural recursion); "
               "whatever it returns is a triple on which the exit test fired (never an intermediate iterate); the only other outcomes are "
               "RuntimeError and an exception raised by a voltage law; and a voltage law that returns for a passive series element "
               "(RLoss, VLoss, PSwitch, Rectifier, Source with vo >= 0) neither inverts nor amplifies its input, over any ordered field. "
               "Tied to the code on every run by replaying the loop in IEEE doubles (outcome class and sweep count must agree with "
               "solve(quiet=False)) and by one more exact model sweep on every returned table; the oracle checks finiteness, polarity, "
-              "exception class and default-settings convergence on modest-drop trees. Liveness, first class proved (Props/C03Live): on single-supply trees whose voltage laws do not read the load current (rs = 0, constant drops; converters and regulators arbitrary) the sweep map reaches an EXACT fixed point after at most 2*depth+2 sweeps, so solve() returns (never RuntimeError) whenever maxiter >= 2*depth+3 (`finite_settling_partial`, with the no-raise premise derived from a checkable margin certificate in `finite_settling_margin_partial`); generic lemma `loop_returns_if_eventually_fixed` for any system. Not proved: the general liveness clause "
+              "exception class and default-settings convergence on modest-drop trees. Liveness, first class proved (Props/C03Live): on single-supply trees whose voltage laws do not read the load current (rs = 0, constant drops; converters and regulators arbitrary) the sweep map reaches an EXACT fixed point after at most 2*depth+2 sweeps, so solve() returns (never RuntimeError) whenever maxiter >= 2*depth+3 (`finite_settling_partial`, with the no-raise premise derived from a checkable margin certificate in `finite_settling_margin_partial`); generic lemma `loop_returns_if_eventually_fixed` for any system. Second class (Props/C03Contract), current-dependent drops: a positive Source with series resistance feeding ILoads / RLoads (and PLoads under a stated certificate) directly, with rs*(J + G*vo) < vo (modest drop): the sweep is an affine contraction with factor rs*G < 1, every iterate stays in [vo - rs*(J+G*vo), vo] (so the polarity guard never fires) and solve() returns within K+3 sweeps for any K with (rs*G)^K*vo <= min(vtol,itol)*(vo - rs*(J+G*vo)) (`star_converges_explicit_partial`); over an Archimedean field such a K exists for every vtol, itol > 0 (`star_converges_partial`). Not proved: the general liveness clause "
               "(existence of a modest-drop steady state implies convergence) - tested on every generated modest-drop system only; "
               "finiteness (IEEE overflow) is outside an ordered-field theorem. Partial: negative Source with resistance amplifies (F01).")
 LEVEL_NOTE = "The PMux instance of the polarity theorem is in Props/C05; liveness for current-dependent drops (the statement C03_liveness_full in Props/C03Live.lean, a def, not asserted) is evidence by test only, labelled as such."
